@@ -363,7 +363,7 @@ func (e *Engine) RunHarness(h *HarnessSpec, fn *ssa.Function, workers int) *Harn
 func (w *worker) runPath(fn *ssa.Function, trace []Decision, res *HarnessResult, rmu *sync.Mutex) (p *Path, pr PathResult) {
 	w.S.Reset()
 	p = &Path{E: w.e, H: w.h, F: w.F, S: w.S, W: w, trace: trace,
-		globals: map[*ssa.Global]*Obj{}, initDone: map[*ssa.Package]bool{}, reach: map[string]bool{},
+		globals: map[*ssa.Global]*Obj{}, initDone: map[*ssa.Package]bool{}, initAborted: map[*ssa.Package]string{}, reach: map[string]bool{},
 		pools: map[*Obj][]Value{}, funcs: map[*ssa.Function]bool{}, stubs: map[string]bool{},
 		ufApps: map[string][]*term.T{}, extra: map[string]interface{}{}}
 	p.extra["res"] = res
